@@ -530,6 +530,7 @@ package intermediate
 //@   requires a:    a != nil
 //@   requires rec:  recNN(incomingRecord) && recNN(existingRecord) && distinctElems(existingRecord) && disjointElems(incomingRecord, existingRecord)
 //@   requires cfg:  aggOK(a, incomingRecord, existingRecord)
+//@   replay aggregate
 //@   ensures  nocfg: cfg(a) == nil ==> err == nil
 //@   // the aggregated record carries the latest end time
 //@   ensures  endtime: cfg(a) != nil ==> (forall j in [0, len(recList(incomingRecord))): forall l in [0, len(recList(existingRecord))): isFirst(incomingRecord, "flowEndSeconds", j) && isFirst(existingRecord, "flowEndSeconds", l) ==>
@@ -593,6 +594,7 @@ package intermediate
 //@ func (a *AggregationProcess) ResetStatAndThroughputElementsInRecord(record) (err)
 //@   requires a:    a != nil && cfg(a) != nil && statsLens(a) && statsNamesDistinct(a) && thrNamesDistinct(a) && thrNamesDistinct2(a)
 //@   requires rec:  recNN(record) && distinctElems(record) && exFields(a, record)
+//@   replay aggregate
 //@   given i0, l0
 //@   ensures  ok:   err == nil
 //@   ensures  delta: err == nil && 0 <= i0 && i0 < len(cfg(a).StatsElements) && isDeltaName(cfg(a).StatsElements[i0]) ==>
